@@ -693,21 +693,34 @@ static bool expand_macro(Token **rest, Token *tok) {
   return true;
 }
 
+// A cached result of search_include_paths.
+typedef struct {
+  char *path;
+  int next_idx; // index in include_paths of the directory after the one that has the file
+} IncludeCacheEntry;
+
 char *search_include_paths(char *filename) {
   if (filename[0] == '/')
     return filename;
 
+  // The cache remembers where the file was found as well, because
+  // #include_next continues the search from there.
   static HashMap cache;
-  char *cached = hashmap_get(&cache, filename);
-  if (cached)
-    return cached;
+  IncludeCacheEntry *cached = hashmap_get(&cache, filename);
+  if (cached) {
+    include_next_idx = cached->next_idx;
+    return cached->path;
+  }
 
   // Search a file from the include paths.
   for (int i = 0; i < include_paths.len; i++) {
     char *path = format("%s/%s", include_paths.data[i], filename);
     if (!file_exists(path))
       continue;
-    hashmap_put(&cache, filename, path);
+    IncludeCacheEntry *ent = calloc(1, sizeof(IncludeCacheEntry));
+    ent->path = path;
+    ent->next_idx = i + 1;
+    hashmap_put(&cache, filename, ent);
     include_next_idx = i + 1;
     return path;
   }
